@@ -105,6 +105,9 @@ def get_instance(cfg, libseed):
     return st, alg
 
 
+BENCH_RUNS = [0]
+
+
 def run_config(cfg, dataset, scheme, one, libseed):
     """returns (status, consensus|exception, ilps_built)"""
     libx.seed_library(libseed)
@@ -112,7 +115,16 @@ def run_config(cfg, dataset, scheme, one, libseed):
     st, alg = get_instance(cfg, libseed)
     if st == "exc":
         return "ctor-exc", alg, 0
-    st, cons = call(alg.compute_consensus_rankings, dataset, scheme, one)
+    if libseed % 5 == 0:
+        # the optional argument bench_mode (documented: the same consensus, computed without the extra information): one run
+        # in five takes that route, alternately as a keyword and as the fourth positional argument
+        BENCH_RUNS[0] += 1
+        if libseed % 10 == 0:
+            st, cons = call(alg.compute_consensus_rankings, dataset, scheme, one, bench_mode=True)
+        else:
+            st, cons = call(alg.compute_consensus_rankings, dataset, scheme, one, True)
+    else:
+        st, cons = call(alg.compute_consensus_rankings, dataset, scheme, one)
     return st, cons, ilp_count() - before
 
 
